@@ -72,9 +72,11 @@ def isTxrAddress (cks : List Nat → List Nat) (v : List Nat) : Bool := isK cks 
 
 def percentDefault : List Nat := 37 :: defaultName
 
-/-- `from_value` of AddressType / TXRAddress: `if value.endswith('%default'): value = value.split('%')[0]` -/
+/-- `from_value` of AddressType / TXRAddress: `address, _, entrypoint = value.partition('%')`, then
+`if entrypoint == 'default': value = address` (only the exact name is the default entrypoint) -/
 def normAddr (v : List Nat) : List Nat :=
-  if percentDefault.isSuffixOf v then v.takeWhile (· != 37) else v
+  let address := v.takeWhile (· != 37)
+  if v.drop address.length = percentDefault then address else v
 
 /-- `Type.from_value` (normalise + assert), `none` = AssertionError -/
 def fromValue (cks : List Nat → List Nat) (ty : String) (v : List Nat) : Option (List Nat) :=
